@@ -132,3 +132,89 @@ def _c10_ff(v):
     virt = ('INDENT', 'DEDENT', 'ERROR_DEDENT')
     rt, pt = (d.get('ref_token') or [None])[0], (d.get('parso_token') or [None])[0]
     return d['line'] >= d['first_formfeed_indent_line'] and (rt in virt or pt in virt) and rt != pt
+
+
+# ---------------------------------------------------------------------------
+# C12   (detail: sense, message, ancestors, leaf_value, line_text, version_tuple, mech{...})
+
+def _c12(v):
+    d = v.get('detail') or {}
+    msg = (d.get('message') or '').replace('SyntaxError: ', '')
+    return d, msg, d.get('mech') or {}, tuple(d.get('version_tuple') or (0, 0))
+
+
+@classifier('c12_yield_in_lambda_outside_function')
+def _c12_yield_lambda(v):
+    d, msg, mech, ver = _c12(v)
+    return v['kind'].split(':')[0] in ('a_issue', 'b_issue') and msg == "'yield' outside function" \
+        and mech.get('innermost_scope') == 'lambdef'
+
+
+@classifier('c12_nonlocal_dunder_class')
+def _c12_nonlocal_class(v):
+    d, msg, mech, ver = _c12(v)
+    return msg == "no binding for nonlocal '__class__' found" and d.get('leaf_value') == '__class__' \
+        and 'classdef' in (d.get('ancestors') or [])
+
+
+@classifier('c12_async_generator_expression_outside_async_function')
+def _c12_async_genexp(v):
+    d, msg, mech, ver = _c12(v)
+    return msg in ('asynchronous comprehension outside of an asynchronous function', "'await' outside async function") \
+        and mech.get('genexp') is True and ver >= (3, 7) and mech.get('innermost_scope') in ('funcdef', 'lambdef')
+
+
+@classifier('c12_fstring_backslash_312')
+def _c12_fs_backslash(v):
+    d, msg, mech, ver = _c12(v)
+    return msg == 'f-string expression part cannot include a backslash' and ver >= (3, 12)
+
+
+@classifier('c12_fstring_nested_spec_312')
+def _c12_fs_nested(v):
+    d, msg, mech, ver = _c12(v)
+    return msg == 'f-string: expressions nested too deeply' and ver >= (3, 12)
+
+
+@classifier('c12_import_binding_then_global')
+def _c12_import_global(v):
+    d, msg, mech, ver = _c12(v)
+    import re
+    return bool(re.match(r"name '[^']+' is (used prior to|assigned to before) global declaration$", msg)) \
+        and 'global_stmt' in (d.get('ancestors') or []) and mech.get('earlier_occurrences_all_in_imports') is True
+
+
+@classifier('c12_dead_code_not_checked_by_cpython_le_37')
+def _c12_dead(v):
+    d, msg, mech, ver = _c12(v)
+    import re
+    return ver <= (3, 7) and mech.get('in_constant_false_block') is True and bool(re.match(
+        r"'(yield|return|continue|break|await|yield from)' (outside function|not properly in loop|outside loop|outside async function)$", msg))
+
+
+@classifier('c12_raw_fstring_backslash_brace')
+def _c12_raw_fstring(v):
+    d, msg, mech, ver = _c12(v)
+    import re
+    lt = d.get('line_text') or ''
+    return v['kind'] == 'a_error_node' and bool(re.search(r'(?i)\b(rf|fr)("|\')', lt)) and ('\\{' in lt or '\\}' in lt)
+
+
+@classifier('c12_formfeed_indentation')
+def _c12_ff(v):
+    d, msg, mech, ver = _c12(v)
+    ff = d.get('first_formfeed_indent_line')
+    if ff is None or d.get('line') is None or d['line'] < ff:
+        return False
+    if v['kind'] == 'a_error_node':
+        return d.get('token_type') in ('INDENT', 'DEDENT', 'ERROR_DEDENT')
+    return (d.get('message') or '').startswith('IndentationError: ')
+
+
+@classifier('c12_fstring_nested_field_with_own_spec')
+def _c12_fs_nested_spec(v):
+    d, msg, mech, ver = _c12(v)
+    import re
+    lt = d.get('line_text') or ''
+    return v['kind'] == 'a_error_node' and bool(re.search(r'(?i)\bf[r]?("|\')', lt) or re.search(r'(?i)\brf("|\')', lt)) \
+        and bool(re.search(r'\{[^{}]*:[^{}]*\{[^{}:]*:[^{}]*\}', lt))
